@@ -13,7 +13,10 @@ EXPLANATION = (
     "R08.3 completeness - every PostStep class is concrete, overrides execute and clone, clone() copies its own class; unsimplify() "
     "executes the recorded steps from last to first over the whole history; every Result the simplifier can return is mapped by "
     "_evaluateSolutionReal, verdicts never map to OPTIMAL, and a VANISHED problem is reconstructed from the presolver alone; R08.4 the "
-    "objective offset of the reduced LP (simplifier offset + user offset) is installed before the reduced LP is solved. NOT decided: "
+    "objective offset of the reduced LP (simplifier offset + user offset) is installed before the reduced LP is solved; R08.5 the Result of "
+    "every reduction call is examined; R08.6 a reduction that tightens a bound with a row-derived value tests lower > upper before it "
+    "returns OKAY; R08.7 (sibling agreement over the post-step classes) a branch that makes a variable basic and zeroes its reduced "
+    "cost also assigns the dual of the re-inserted row. NOT decided: "
     "that each reduction is valid and each undo formula is right - the substance of the property; basis-count conservation per post-step "
     "(tried as an abstract interpretation, withdrawn: loops with data-dependent trip counts in 3 of 16 classes).")
 
@@ -33,6 +36,12 @@ def innermost_loop(f, n):
 
 
 def run(fb, rep, tier):
+    _run(fb, rep, tier)
+    verdicts_and_bounds(fb, rep)
+    dual_transfer(fb, rep)
+
+
+def _run(fb, rep, tier):
     rep.extra['explanation'] = EXPLANATION
     rep.rule('R08.1', 'every removeRow/removeCol of a reduction is preceded in its loop iteration by an m_hist.append or fixColumn', floor=20)
     is_append = lambda n: (n.k == 'CXXMemberCallExpr' and n.short == 'append' and n.obj() is not None and 'm_hist' in render(n.obj())) or this_call(('fixColumn',))(n)
@@ -216,3 +225,103 @@ def run(fb, rep, tier):
     term = [n for n in sp.nodes if n.k in ('CXXOperatorCallExpr',) and n.o == '+=' and 'objReal(i)' in render(n) and '_primal[i]' in render(n)]
     rep.check(bool(init) and bool(term), 'R08.4', '_storeSolutionRealFromPresol|objective', sp.where(), 'objective = OBJ_OFFSET + sum primal[i] * objReal(i)',
               'the objective of a vanished problem is not OBJ_OFFSET + sum of _solReal._primal[i] * objReal(i) (user-space objective coefficients)')
+
+
+def verdicts_and_bounds(fb, rep):
+    """R08.5 error discipline: every call of a reduction that returns SPxSimplifier::Result has its result examined (stored, compared
+    or returned) - an INFEASIBLE / UNBOUNDED verdict must not be dropped.
+    R08.6 a reduction that tightens a column bound with a value derived from a row (not a constant, not the column's own other bound,
+    not a sum of own bounds) tests lower > upper on that column before it returns OKAY: no later reduction is guaranteed to look again."""
+    S = 'soplex::SPxMainSM<double>'
+    rep.rule('R08.5', 'the Result of every reduction call inside the simplifier is examined (stored, compared or returned)', floor=10)
+    k5 = 0
+    for f in fb.methods_of(S):
+        for n in f.nodes:
+            if not (n.is_call() and n.u in fb.funcs and 'Result' in (fb.funcs[n.u].ret or '') and fb.funcs[n.u].cls == S):
+                continue
+            k5 += 1
+            p_ = n.parent
+            while p_ is not None and p_.k in ('ImplicitCastExpr', 'ParenExpr', 'ExprWithCleanups'):
+                p_ = p_.parent
+            used = p_ is not None and (p_.k in ('VarDecl', 'BinaryOperator', 'ReturnStmt', 'CXXOperatorCallExpr') or (p_.k in ('IfStmt', 'WhileStmt', 'SwitchStmt') and p_.kid('cond') is not None and any(x.i == n.i for x in p_.kid('cond').walk())))
+            rep.check(used, 'R08.5', '%s|%s@%d' % (f.short, n.short, k5), '%s:%d' % (f.file, n.l), 'result examined (%s)' % (p_.k if p_ is not None else ''),
+                      '%s calls %s and drops its Result: an INFEASIBLE / UNBOUNDED verdict of the reduction is lost and the simplification continues on an inconsistent LP' % (f.short, n.short))
+    if k5 < 10:
+        raise AnalysisBroken('R08.5: only %d reduction calls found' % k5)
+
+    rep.rule('R08.6', 'a reduction that tightens a column bound with a value derived from a row tests lower > upper on that column before it returns OKAY', floor=6)
+    k6 = 0
+
+    def hook(node, txt):
+        # x >= -infinity is always true (propagatePseudoobj returns at once)
+        if re.match(r'^\(?.* >= \(?(\(double\))?-infinity\)?\)?$', txt) and '&&' not in txt and '||' not in txt:
+            return True
+        return None
+    for f in fb.methods_of(S):
+        if not f.nodes or 'Result' not in (f.ret or ''):
+            continue
+        g = None
+        for n in f.nodes:
+            if not (n.k == 'CXXMemberCallExpr' and n.short in ('changeLower', 'changeUpper') and n.obj() is not None and render(n.obj()) == 'lp' and len(n.args()) >= 2):
+                continue
+            col = render(strip(n.args()[0]))
+            val = render(strip(n.args()[1]))
+            own = re.search(r'lp\.(lower|upper)\(%s\)' % re.escape(col), val) is not None
+            const = re.match(r'^\(?(\(double\))?-?(infinity|0|0\.0)\)?$', val) is not None
+            if own or const:
+                continue
+            if g is None:
+                g = Graph(f, Assume(hook=hook))
+            b = g.block_of(n)
+            if b is None or b not in g.reach(g.entry):
+                continue
+            k6 += 1
+            crossing = lambda x, col=col: x.k == 'CallExpr' and x.short in ('GT', 'GTrel', 'LT', 'LTrel') and ('lp.lower(%s)' % col) in render(x) and ('lp.upper(%s)' % col) in render(x)
+            ok, path = g.must_pass(crossing, start=b)
+            # a test in the same block only counts if it follows the change
+            if ok and b in g.blocks_with(crossing) and not any(crossing(x) and x.i > n.i for x in f.nodes if g.block_of(x) == b):
+                ok = all(g.must_pass(crossing, start=s_)[0] for s_ in g.succ[b])
+            rep.check(ok, 'R08.6', '%s|%s(%s, %s)' % (f.short, n.short, col, val[:20]), '%s:%d' % (f.file, n.l), 'lower > upper is tested before the reduction returns',
+                      '%s tightens the bound of x%s to %s (derived from a row) and can return OKAY without testing lower > upper (lines %s): the simplified LP may reach the solver with contradictory bounds' % (f.short, col, val[:30], g.path_lines(path)[:8] if path else ''))
+    if k6 < 6:
+        raise AnalysisBroken('R08.6: only %d row-derived bound tightenings found' % k6)
+
+
+def dual_transfer(fb, rep):
+    """R08.7 (sibling agreement over all post-step classes): a branch of execute() that turns a variable BASIC and sets its reduced cost
+    to zero has taken that reduced cost away from the variable - by r = c - A^T y it must go into the dual of the row the step re-inserts,
+    so the same branch assigns y[..].  (RowSingletonPS, ForceConstraintPS, DoubletonEquationPS all do; AggregationPS did not: F58.)"""
+    rep.rule('R08.7', 'a post-step branch that makes a variable BASIC and zeroes its reduced cost also assigns the dual of the re-inserted row', floor=8)
+    k = 0
+    for f in sorted(fb.funcs.values(), key=lambda g: g.name):
+        if not re.match(r'^soplex::SPxMainSM<double>::\w+PS::execute$', f.name):
+            continue
+        cls = f.name.split('::')[-2]
+        for n in f.nodes:
+            if n.k != 'IfStmt':
+                continue
+            for arm in ('then', 'else'):
+                a = n.kid(arm)
+                if a is None or a.k == 'IfStmt':
+                    continue
+                direct = []
+                for x in a.walk():
+                    if x.k in ('BinaryOperator', 'CompoundAssignOperator') and x.o in ('=', '+=', '-='):
+                        anc = [y for y in f.ancestors(x) if y.k == 'IfStmt']
+                        if anc and anc[0].i == n.i:
+                            direct.append(x)
+                basic = [x for x in direct if re.match(r'^\(?cStatus\[.*\] = BASIC', render(x))]
+                rz = [x for x in direct if re.match(r'^\(?r\[.*\] = (\(double\))?0', render(x))]
+                if not basic or not rz:
+                    continue
+                # same variable
+                bv = set(re.match(r'^\(?cStatus\[(.*?)\]', render(x)).group(1) for x in basic)
+                rv = set(re.match(r'^\(?r\[(.*?)\]', render(x)).group(1) for x in rz)
+                if not (bv & rv):
+                    continue
+                k += 1
+                yw = [x for x in direct if re.match(r'^\(?y\[', render(x))]
+                rep.check(bool(yw), 'R08.7', '%s::execute|%s branch at %d|%s' % (cls, arm, n.l, sorted(bv & rv)[0]), '%s:%d' % (f.file, n.l), 'dual assigned: %s' % (render(yw[0])[:40] if yw else ''),
+                          'the branch makes %s basic and sets r[%s] = 0 but leaves the dual of the re-inserted row as it was computed for the other case: the returned duals violate r = c - A^T y' % (sorted(bv & rv)[0], sorted(bv & rv)[0]))
+    if k < 8:
+        raise AnalysisBroken('R08.7: only %d basic-and-zero-reduced-cost branches found in the post-steps' % k)
